@@ -323,7 +323,27 @@ impl Gen {
 
     fn gen_type_decls(&mut self) {
         let n = if self.cfg.max_user_types == 0 { 0 } else { self.rng.usize(self.cfg.max_user_types + 1) };
+        // a "packed" record: 2-7 one-byte fields or three two-byte fields, i.e. a plain-data value of
+        // 2, 3, 5, 6 or 7 bytes without padding. The next record declared embeds it next to a
+        // one-byte field, so that copies of it are stored right before / after a live neighbour.
+        let mut packed: Option<usize> = None;
         for i in 0..n {
+            let bytes: Vec<Ty> = [IntTy::U8, IntTy::I8].iter().filter(|t| self.cfg.ints.contains(t)).map(|t| Ty::Int(*t)).chain([Ty::Bool]).collect();
+            let words: Vec<Ty> = [IntTy::U16, IntTy::I16].iter().filter(|t| self.cfg.ints.contains(t)).map(|t| Ty::Int(*t)).collect();
+            if packed.is_none() && n > 1 && i + 1 < n && self.rng.chance(1, 2) {
+                let mut names: Vec<&str> = FIELD_NAMES.to_vec();
+                self.rng.shuffle(&mut names);
+                let fields: Vec<(String, Ty)> = if !words.is_empty() && self.rng.chance(1, 4) {
+                    (0..3).map(|j| (names[j].to_string(), words[self.rng.usize(words.len())].clone())).collect()
+                } else {
+                    let nf = [2usize, 3, 3, 5, 6, 7][self.rng.usize(6)];
+                    (0..nf).map(|j| (names[j].to_string(), bytes[self.rng.usize(bytes.len())].clone())).collect()
+                };
+                self.tag(format!("decl:packed-record:{}", fields.len()));
+                self.prog.types.push(TypeDecl::Record { name: format!("Rec{i}"), params: vec![], fields });
+                packed = Some(i);
+                continue;
+            }
             let nparams = if self.cfg.generics && self.rng.chance(1, 3) { 1 + self.rng.usize(2) } else { 0 };
             let params: Vec<String> = (0..nparams).map(|j| format!("T{j}")).collect();
             let mut used = vec![false; nparams];
@@ -354,6 +374,15 @@ impl Gen {
                     if !u {
                         fields.push((format!("z{p}"), Ty::Param(p)));
                     }
+                }
+                if let Some(pd) = packed
+                    && self.rng.chance(2, 3)
+                {
+                    let pos = self.rng.usize(fields.len() + 1);
+                    fields.insert(pos, ("pk".to_string(), Ty::Named(pd, vec![])));
+                    let pos = self.rng.usize(fields.len() + 1);
+                    fields.insert(pos, ("pb".to_string(), bytes[self.rng.usize(bytes.len())].clone()));
+                    self.tag("decl:embeds-packed-record".into());
                 }
                 self.prog.types.push(TypeDecl::Record { name: format!("Rec{i}"), params, fields });
                 self.tag("decl:record".into());
@@ -1653,7 +1682,10 @@ impl Gen {
         // let cntN = 0; while cntN < K && <cond> { cntN = cntN + 1; body }
         let cnt = self.fresh("cnt");
         let k = self.rng.below(4) as i128;
-        let t = Ty::Int(IntTy::I32);
+        let heap_cmp = !self.cfg.avoid.while_cond_temps && (self.cfg.strings || self.cfg.lists || self.cfg.trk) && self.rng.chance(1, 6);
+        // (a tracked value is made from an i64)
+        let trk_cmp = heap_cmp && self.cfg.trk && self.rng.chance(1, 2);
+        let t = if trk_cmp { Ty::Int(IntTy::I64) } else { Ty::Int(IntTy::I32) };
         out.push(Stmt::Let(
             cnt.clone(),
             None,
@@ -1668,7 +1700,42 @@ impl Gen {
                 Box::new(Expr::new(t.clone(), EK::Lit(Lit::Int { v: k, suffix: false, hex: false, under: false }))),
             ),
         );
-        let cond = if self.rng.chance(2, 3) {
+        let cond = if heap_cmp {
+            // the whole condition is ONE comparison of values that own heap storage and depend
+            // on the counter: `f"{cnt}" != "K"` runs K times, `f"{cnt}" == "0"` runs once
+            let lit = |v: i128| Expr::new(t.clone(), EK::Lit(Lit::Int { v, suffix: false, hex: false, under: false }));
+            let txt = |v: i128| Expr::new(Ty::Str, EK::Lit(Lit::Str(v.to_string())));
+            let var = Expr::var(&cnt, t.clone());
+            let fcnt = Expr::new(Ty::Str, EK::FStr(vec![FPart::Expr(var.clone())]));
+            let (op, target) = if self.rng.chance(3, 4) { (BinOp::Ne, k) } else { (BinOp::Eq, 0) };
+            let mut forms: Vec<(Expr, Expr)> = Vec::new();
+            if trk_cmp {
+                self.tag("host:mk".into());
+                let mk = |a: Expr| Expr::new(Ty::Trk, EK::Host("mk".into(), vec![a]));
+                forms.push((mk(var.clone()), mk(lit(target))));
+            } else if self.cfg.strings {
+                forms.push((fcnt.clone(), txt(target)));
+                if self.cfg.options {
+                    let o = Ty::opt(Ty::Str);
+                    forms.push((Expr::new(o.clone(), EK::Ctor(Ctor::Some, vec![fcnt.clone()])), Expr::new(o, EK::Ctor(Ctor::Some, vec![txt(target)]))));
+                }
+                if self.cfg.lists {
+                    let l = Ty::list(Ty::Str);
+                    forms.push((Expr::new(l.clone(), EK::ListLit(vec![fcnt.clone()])), Expr::new(l, EK::ListLit(vec![txt(target)]))));
+                }
+            }
+            if self.cfg.lists && !trk_cmp {
+                let l = Ty::list(t.clone());
+                forms.push((Expr::new(l.clone(), EK::ListLit(vec![var.clone()])), Expr::new(l, EK::ListLit(vec![lit(target)]))));
+            }
+            if forms.is_empty() {
+                forms.push((var.clone(), lit(target)));
+            }
+            let (a, b) = forms[self.rng.usize(forms.len())].clone();
+            let (a, b) = if self.rng.bool() { (a, b) } else { (b, a) };
+            self.tag(format!("while:cond-is-one-heap-comparison:{}", if op == BinOp::Ne { "ne" } else { "eq" }));
+            Expr::new(Ty::Bool, EK::Bin(op, Box::new(a), Box::new(b)))
+        } else if self.rng.chance(2, 3) {
             let mut extra = None;
             let avoid = self.cfg.avoid.while_cond_temps;
             if avoid {
